@@ -39,6 +39,7 @@ pub struct ChainCfg {
     pub permanent_difficulty: bool,
     pub genesis_difficulty: u64,
     pub epoch_duration_target: u64,
+    pub max_proposals: Option<u64>,
 }
 
 impl Default for ChainCfg {
@@ -51,6 +52,7 @@ impl Default for ChainCfg {
             permanent_difficulty: false,
             genesis_difficulty: 1000,
             epoch_duration_target: 4 * 60 * 60,
+            max_proposals: None,
         }
     }
 }
@@ -110,12 +112,15 @@ pub fn make_consensus(cfg: &ChainCfg) -> (Consensus, Vec<TransactionView>) {
         cfg.epoch_duration_target,
         (1, 40),
     );
-    let consensus = ConsensusBuilder::new(genesis, epoch_ext)
+    let mut builder = ConsensusBuilder::new(genesis, epoch_ext)
         .cellbase_maturity(EpochNumberWithFraction::new(0, 0, 1))
         .tx_proposal_window(ProposalWindow(cfg.window.0, cfg.window.1))
         .permanent_difficulty_in_dummy(cfg.permanent_difficulty)
-        .epoch_duration_target(cfg.epoch_duration_target)
-        .build();
+        .epoch_duration_target(cfg.epoch_duration_target);
+    if let Some(n) = cfg.max_proposals {
+        builder = builder.max_block_proposals_limit(n);
+    }
+    let consensus = builder.build();
     (consensus, funds)
 }
 
